@@ -82,6 +82,10 @@ fn main() {
     if kb_ok(&SdJwt::new(jwt.clone(), disc.clone(), Some(kb(&jwt2, &disc2, Some(TYP), &hk, "n1", "verifier", now(), b"good"))), &base()) { return Err("sd_hash over another SD-JWT accepted".into()); }
     if kb_ok(&SdJwt::new(jwt.clone(), vec![], Some(kb(&jwt, &disc, Some(TYP), &hk, "n1", "verifier", now(), b"good"))), &base()) { return Err("sd_hash over other disclosures accepted".into()); }
     if kb_ok(&SdJwt::new(jwt.clone(), disc.clone(), None), &base()) { return Err("missing KB-JWT accepted".into()); }
+    // the presented disclosures are hashed exactly as presented: a repeated disclosure is part of the text
+    let mut twice = disc.clone(); twice.push(disc[0].clone());
+    if kb_ok(&SdJwt::new(jwt.clone(), twice.clone(), Some(kb(&jwt, &disc, Some(TYP), &hk, "n1", "verifier", now(), b"good"))), &base()) { return Err("sd_hash over d1 accepted for a presentation d1~d1".into()); }
+    if !kb_ok(&SdJwt::new(jwt.clone(), twice.clone(), Some(kb(&jwt, &twice, Some(TYP), &hk, "n1", "verifier", now(), b"good"))), &base()) { return Err("sd_hash over d1~d1 rejected for a presentation d1~d1".into()); }
     // key must belong to the supplied holder document
     if kb_ok(&sd(kb(&jwt, &disc, Some(TYP), &format!("{ISSUER}#k"), "n1", "verifier", now(), b"good")), &base()) { return Err("kid of another document accepted".into()); }
     if kb_ok(&sd(kb(&jwt, &disc, Some(TYP), &format!("{HOLDER}#nope"), "n1", "verifier", now(), b"good")), &base()) { return Err("kid of an absent method accepted".into()); }
@@ -129,6 +133,16 @@ fn main() {
     let mut extra = disc.clone(); extra.push(issuer_jwt(ISSUER, r#","y":2"#, b"good").1[0].replace('A', "B"));
     if run(&jwt, &extra, &base()) { return Err("unreferenced / corrupted disclosure accepted".into()); }
     if run(&jwt, &disc, &JwtCredentialValidationOptions::default().latest_issuance_date(t(1000))) { return Err("issued after the latest-issuance bound accepted".into()); }
+    // expiry is judged against `earliest_expiry_date`, else against NOW - never against the issuance bound
+    {
+      let claims = format!(r#"{{"iss":"{ISSUER}","nbf":1500,"exp":5000,"sub":"did:example:subject","vc":{{"@context":"https://www.w3.org/2018/credentials/v1","type":["VerifiableCredential"],"credentialSubject":{{"name":"x","degree":"BSc"}}}}}}"#);
+      let mut enc = SdObjectEncoder::new(&claims).unwrap();
+      let d = enc.conceal("/vc/credentialSubject/degree", None).unwrap();
+      enc.add_sd_alg_property();
+      let token = jws(&format!(r#"{{"alg":"EdDSA","kid":"{ISSUER}#k"}}"#), &enc.try_to_string().unwrap(), b"good");
+      if run(&token, &[d.to_string()], &JwtCredentialValidationOptions::default().latest_issuance_date(t(2000))) { return Err("credential expired in 1970 accepted when only latest_issuance_date (before the expiry) is configured".into()); }
+      if !run(&token, &[d.to_string()], &JwtCredentialValidationOptions::default().latest_issuance_date(t(2000)).earliest_expiry_date(t(4000))) { return Err("credential valid at the configured expiry bound rejected".into()); }
+    }
     Ok(())
   });
 }
